@@ -163,6 +163,9 @@ pub struct ProbeData {
     pub obs: Vec<ProbeObs>,
     pub classes: BTreeMap<&'static str, u64>,
 }
+/// rotation counter of the probe window (see `checks::concchecks2::probe_window`)
+pub static PROBE_ROT: std::sync::atomic::AtomicU64 = std::sync::atomic::AtomicU64::new(0);
+
 pub type ProbeMaker<'a> = &'a dyn Fn(&Prog, &Arc<FMap>, Arc<Mutex<ProbeData>>) -> (ProbeSel, ProbeFn);
 
 #[derive(Clone, Debug, Default)]
@@ -872,6 +875,8 @@ pub enum Mix {
     /// 4-6 threads x 6-12 mixed per-key operations (and optionally iterations / retain_force) over
     /// ~24 keys on a tiny table: resizes, tree conversions and removals interleave freely
     LongMixed,
+    /// as LongMixed plus full iterations, retain / retain_force, clear and len
+    LongReaders,
 }
 
 fn key_strategy(hot: u16) -> BoxedStrategy<u16> {
@@ -922,6 +927,20 @@ pub fn cop_strategy(mix: Mix, hot: u16) -> BoxedStrategy<COp> {
         ]
         .boxed(),
         Mix::Long => (16u16..200).prop_map(COp::Insert).boxed(),
+        Mix::LongReaders => {
+            let kk = prop_oneof![3 => 0u16..10, 2 => 16u16..30].boxed();
+            prop_oneof![
+                6 => kk.clone().prop_map(COp::Insert),
+                3 => kk.clone().prop_map(COp::Remove),
+                1 => (kk.clone(), act.clone()).prop_map(|(k, a)| COp::Compute(k, a)),
+                1 => kk.clone().prop_map(COp::Get),
+                3 => (0u8..3).prop_map(COp::IterAll),
+                1 => (2u8..4, 0u8..3).prop_map(|(m, r)| COp::RetainForce(Pred::KeyMod(m, r))),
+                1 => (2u8..4, 0u8..3).prop_map(|(m, r)| COp::Retain(Pred::KeyMod(m, r))),
+                1 => Just(COp::Len),
+            ]
+            .boxed()
+        }
         Mix::LongMixed => {
             let kk = prop_oneof![3 => 0u16..10, 2 => 16u16..30].boxed();
             prop_oneof![
@@ -1030,7 +1049,7 @@ pub fn prog_strategy(mix: Mix, max_threads: usize, max_ops: usize) -> BoxedStrat
     if mix == Mix::Long {
         return long_prog_strategy(max_threads, max_ops);
     }
-    if mix == Mix::LongMixed {
+    if mix == Mix::LongMixed || mix == Mix::LongReaders {
         let hm = prop_oneof![3 => Just(HMode::Identity), 2 => Just(HMode::Mix), 2 => Just(HMode::SameBin), 1 => Just(HMode::Const0), 1 => Just(HMode::Mod4)];
         let mo = max_ops.max(6);
         return (hm, prop_oneof![Just(0u32), Just(1u32), Just(5u32), Just(20u32), Just(43u32)], prop_oneof![Just(1u32), Just(2u32), Just(8u32)], prop_oneof![Just(GuardMode::PerOp), Just(GuardMode::PerThread), Just(GuardMode::Pin)], 0u16..14, proptest::collection::vec(0u16..10, 0..9))
@@ -1039,7 +1058,7 @@ pub fn prog_strategy(mix: Mix, max_threads: usize, max_ops: usize) -> BoxedStrat
                 hot_init.sort();
                 hot_init.dedup();
                 let cfg = CCfg { hmode, capacity, batch, gmode };
-                let thread = proptest::collection::vec(cop_strategy(Mix::LongMixed, 10), mo / 2..=mo);
+                let thread = proptest::collection::vec(cop_strategy(mix, 10), mo / 2..=mo);
                 proptest::collection::vec(thread, 4..=max_threads.max(4)).prop_map(move |threads| Prog { cfg: cfg.clone(), filler, hot_init: hot_init.clone(), threads })
             })
             .boxed();
